@@ -465,11 +465,44 @@ def weave_item(hdr, subs, stats):
         if d["op"] in ("before", "after"):
             a, b = _tok_find(toks, d["anchor"], d.get("nth", 1), what)
             if d["op"] == "before":
-                p = _line_start(ot.s, toks[a].start)
-                # if other code precedes the anchor on its line, insert right at the anchor
-                if ot.s[p:toks[a].start].strip():
-                    p = toks[a].start
-                    add(p, " " + d["text"].strip() + " ")
+                # start of the statement that contains the anchor (the anchor may sit inside call arguments)
+                k, dep = a - 1, 0
+                while k >= 0:
+                    tx = toks[k].text
+                    if toks[k].kind == "punct":
+                        if tx in (")", "]"):
+                            dep += 1
+                        elif tx in ("(", "["):
+                            dep -= 1
+                            if dep < 0:
+                                dep = 0
+                        elif tx == "}" and dep == 0:
+                            # a closing brace ends the previous statement unless it closes a
+                            # struct-literal / closure inside the current expression (dep > 0 handles calls)
+                            break
+                        elif tx in ("{", ";") and dep == 0:
+                            break
+                        elif tx == "}":
+                            # skip a balanced block inside parentheses
+                            bd = 1
+                            k -= 1
+                            while k >= 0 and bd:
+                                if toks[k].text == "}":
+                                    bd += 1
+                                elif toks[k].text == "{":
+                                    bd -= 1
+                                k -= 1
+                            continue
+                    elif toks[k].kind == "id" and tx == "=>" and dep == 0:
+                        break
+                    k -= 1
+                first = k + 1
+                if toks[k].text == "=>" if k >= 0 else False:
+                    first = a  # match-arm expression: cannot hold a statement; insert at the anchor
+                st = toks[first].start
+                p = _line_start(ot.s, st)
+                if ot.s[p:st].strip():
+                    add(st, " " + d["text"].strip() + " ")
                 else:
                     add(p, d["text"].rstrip() + "\n")
             elif d.get("exact"):
